@@ -101,7 +101,9 @@ def check_name_tests(A, R: Report, rid: str, funcs=None, only=None):
                 if not has_max or idx is None:
                     continue
                 n += 1
-                wrong = (c.func.attr == 'split' and idx == -1) or (c.func.attr == 'rsplit' and idx == 0)
+                maxs = c.args[1] if len(c.args) >= 2 else next((kw.value for kw in c.keywords if kw.arg == 'maxsplit'), None)
+                mval = maxs.value if isinstance(maxs, ast.Constant) and isinstance(maxs.value, int) else None
+                wrong = (c.func.attr == 'split' and (idx == -1 or (mval is not None and idx == mval))) or (c.func.attr == 'rsplit' and (idx == 0 or (mval is not None and idx == -(mval + 1))))
                 construct = f'{f.short}: `{src(node)[:70]}`'
                 R.check(not wrong, rid, construct, key_of(f.short, 'segment', src(node)), 'bounded split used for the bounded side',
                         f'`{src(node)}` takes the remainder of a bounded split as if it were the {"last" if idx == -1 else "first"} segment: names with more than one `{c.args[0].value}` level (nested groups / namespaces) are cut at the wrong place',
@@ -455,6 +457,27 @@ def run(A, R: Report, thorough: bool):
         R.check(ok, 'R08.3', f'{f_.short}: skip `{t[:60]}`', key_of('skip', t), 'abstract / excluded / exclusion-pass skip',
                 f'a declared task class is skipped under `{t}`: the chain no longer contains exactly the declared, non-abstract, non-excluded tasks', where=where(f_, n))
     check_expand_tasks(A, R, 'R08.3')
+
+    # ---- R08.7 declarations are read with inheritance: Meta(cls) collects dir(cls.Meta) / getattr, so a Meta class that extends
+    # another one keeps the inherited input_tasks / parameters / abstract
+    R.rule('R08.7', 'Meta.__init__ enumerates the declarations with dir(cls.Meta) and reads them with getattr (inherited declarations included)', floor=1)
+    meta_ci = A.prog.find_cls('Meta')
+    minit = meta_ci.methods.get('__init__') if meta_ci is not None else None
+    R.require(minit is not None, 'anchor: utils.clazz.Meta.__init__ missing')
+    mloops = [n for n in inl(A, minit) if isinstance(n, ast.For)]
+    if not mloops:
+        R.undecided('R08.7', 'Meta.__init__', 'collection of the declarations not recognised', where=where(minit))
+    for lp in mloops:
+        it = subst_single_assign(A, minit, lp.iter)
+        t_ = src(it)
+        if isinstance(it, ast.Call) and src(it.func) == 'dir' and t_.endswith('.Meta)'):
+            reads = [n for n in ast.walk(lp) if isinstance(n, ast.Call) and src(n.func) == 'getattr' and len(n.args) >= 2 and src(n.args[0]).endswith('.Meta')]
+            R.check(bool(reads), 'R08.7', 'Meta.__init__', key_of('meta-read', bool(reads)), 'dir(cls.Meta) + getattr', 'declarations are enumerated with dir() but not read with getattr from the Meta class', where=where(minit, lp))
+        elif 'vars(' in t_ or '__dict__' in t_:
+            R.violation('R08.7', 'Meta.__init__', key_of('meta-own-only', t_[:60]), f'declarations are taken from `{t_[:60]}`: only attributes defined directly on a Meta class are seen, so input_tasks / parameters / abstract inherited from a parent Meta are dropped (edges and missing-input errors disappear)',
+                        where=where(minit, lp))
+        else:
+            R.undecided('R08.7', 'Meta.__init__', f'iteration `{t_[:60]}` not recognised', where=where(minit, lp))
 
     # ---- R08.4
     R.rule('R08.4', 'no textual prefix / suffix / substring test between structured names (namespace, full name, slug) without the separator', floor=1)
